@@ -31,7 +31,8 @@ func writeZip(dir, archive string) {
 //  3 everything missing (target absent), 4 sub replaced by a regular file, 5 sub replaced by a
 //  symlink to another directory holding valid files, 6 f replaced by a non-empty directory,
 //  7 lnk retargeted, 8 lnk replaced by a directory, 9 emptydir replaced by a file,
-//  10 sub/deep replaced by a file (nested dir hidden), 11 g emptied and h non-empty.
+//  10 sub/deep replaced by a file (nested dir hidden), 11 g emptied and h non-empty, 12-14 the empty file h replaced
+//  by a non-empty directory / a symlink to g / a dangling symlink, 15 f replaced by a symlink to sub/g.
 func H_heal() {
 	hlib.SetCopyBuf()
 	B := hlib.B()
@@ -80,6 +81,19 @@ func H_heal() {
 	case 11:
 		hlib.Must(os.WriteFile(dir+"/sub/g", []byte{}, 0o644), "empty g")
 		hlib.Must(os.WriteFile(dir+"/sub/deep/h", []byte{5, 6}, 0o644), "non-empty h")
+	case 12: // the empty file replaced by a non-empty directory
+		hlib.Must(os.Remove(dir+"/sub/deep/h"), "rm h")
+		hlib.Must(os.MkdirAll(dir+"/sub/deep/h/x", 0o755), "dir instead of empty file")
+		hlib.Must(os.WriteFile(dir+"/sub/deep/h/x/y", []byte{2}, 0o644), "content")
+	case 13: // the empty file replaced by a symlink to another file of the build
+		hlib.Must(os.Remove(dir+"/sub/deep/h"), "rm h")
+		hlib.Must(os.Symlink("../g", dir+"/sub/deep/h"), "symlink instead of empty file")
+	case 14: // the empty file replaced by a dangling symlink
+		hlib.Must(os.Remove(dir+"/sub/deep/h"), "rm h")
+		hlib.Must(os.Symlink("ghost", dir+"/sub/deep/h"), "dangling symlink instead of empty file")
+	case 15: // f replaced by a symlink to another file of the build
+		hlib.Must(os.Remove(dir+"/f"), "rm f")
+		hlib.Must(os.Symlink("sub/g", dir+"/f"), "symlink instead of file")
 	}
 	var before []hlib.Entry
 	if damage == 0 {
